@@ -259,7 +259,7 @@ def to_sx(e):
         return ["neg", to_sx(e[1])]
     if e[0] == "pow":
         return ["pow", to_sx(e[1]), e[2]]
-    return [e[0], to_sx(e[1]), to_sx(e[2])]
+    return [e[0], to_sx(e[1]), to_sx(e[2])]       # incl. ("gpow", base, exponent): only for replay records, never sent to the model
 
 
 def render(e, var):
@@ -271,7 +271,7 @@ def render(e, var):
         return "(-(" + render(e[1], var) + "))"
     if e[0] == "pow":
         return "((" + render(e[1], var) + ")^" + str(e[2]) + ")"
-    op = {"add": "+", "sub": "-", "mul": "*", "div": "%"}[e[0]]
+    op = {"add": "+", "sub": "-", "mul": "*", "div": "%", "gpow": "^"}[e[0]]
     return "((" + render(e[1], var) + ")" + op + "(" + render(e[2], var) + "))"
 
 
@@ -280,6 +280,88 @@ def dsum(l):
     for x in reversed(l):
         r = ("add", x, r)
     return r
+
+
+# ---- general power a^b with a variable-dependent exponent: NOT in the Coq dexpr (x^y is not rational).
+# For trees containing ("gpow", a, b) the oracle is this independent forward-mode (dual number) evaluation in Python floats,
+#   d(a^b) = a^b * (b' * ln a + b * a' / a),   a > 0,
+# carried together with the |.|-magnitudes used by the tolerance.  C06_D_is_derivative does not cover this node.
+import math
+
+
+class Dual:
+    __slots__ = ("v", "g", "m", "mg")
+
+    def __init__(self, v, g, m, mg):
+        self.v, self.g, self.m, self.mg = v, g, m, mg
+
+
+def dual_eval(e, pt, n, info):
+    t = e[0]
+    if t == "c":
+        c = e[1] / e[2]
+        return Dual(c, [0.0] * n, abs(c), [0.0] * n)
+    if t == "v":
+        g = [1.0 if i == e[1] else 0.0 for i in range(n)]
+        return Dual(pt[e[1]], g, abs(pt[e[1]]), list(g))
+    if t == "neg":
+        a = dual_eval(e[1], pt, n, info)
+        return Dual(-a.v, [-x for x in a.g], a.m, a.mg)
+    if t == "pow":
+        a = dual_eval(e[1], pt, n, info)
+        k = e[2]
+        return Dual(a.v ** k, [k * a.v ** (k - 1) * x for x in a.g], a.m ** k, [k * a.m ** (k - 1) * x for x in a.mg])
+    a = dual_eval(e[1], pt, n, info)
+    b = dual_eval(e[2], pt, n, info)
+    if t in ("add", "sub"):
+        sgn = 1.0 if t == "add" else -1.0
+        return Dual(a.v + sgn * b.v, [x + sgn * y for x, y in zip(a.g, b.g)], a.m + b.m, [x + y for x, y in zip(a.mg, b.mg)])
+    if t == "mul":
+        return Dual(a.v * b.v, [x * b.v + a.v * y for x, y in zip(a.g, b.g)], a.m * b.m, [x * b.m + a.m * y for x, y in zip(a.mg, b.mg)])
+    if t == "div":
+        info["mind"] = min(info["mind"], abs(b.v))
+        return Dual(a.v / b.v, [(x * b.v - a.v * y) / (b.v * b.v) for x, y in zip(a.g, b.g)],
+                    a.m / abs(b.v), [x / abs(b.v) + a.m * y / (b.v * b.v) for x, y in zip(a.mg, b.mg)])
+    if t == "gpow":
+        info["minbase"] = min(info["minbase"], a.v)
+        if a.v <= 0:
+            raise ValueError("base not positive")
+        v = a.v ** b.v
+        la = math.log(a.v)
+        return Dual(v, [v * (y * la + b.v * x / a.v) for x, y in zip(a.g, b.g)],
+                    abs(v), [abs(v) * (y * abs(la) + abs(b.v) * x / a.v) for x, y in zip(a.mg, b.mg)])
+    raise ValueError(t)
+
+
+def py_oracle(e, pt, n):
+    """same layout as the model's (oracle ...) answer, with floats instead of (num den)"""
+    info = {"mind": float("inf"), "minbase": float("inf")}
+    try:
+        d = dual_eval(e, [float(x) for x in pt], n, info)
+    except (ValueError, ZeroDivisionError, OverflowError):
+        return ["ok", 0, "none", 0.0, [0.0] * n, [0.0] * n, 0.0]
+    ok = info["minbase"] >= 0.25 and info["mind"] >= 0.25
+    return ["ok", 1 if ok else 0, "none", d.v, d.g, d.mg, d.m]
+
+
+def has_gpow(e):
+    return e[0] == "gpow" or any(isinstance(x, tuple) and has_gpow(x) for x in e[1:])
+
+
+def gpow_trees():
+    v0, v1, v2 = ("v", 0), ("v", 1), ("v", 2)
+    one, two, half = ("c", 1, 1), ("c", 2, 1), ("c", 1, 2)
+    bases = [v0, v1, ("add", v0, one), ("mul", v0, v1), two, ("div", v2, two)]
+    exps = [v1, v2, ("mul", v1, half), ("add", v2, one), ("div", v1, v2), ("neg", v1)]
+    out = [("gpow", a, b) for a in bases for b in exps]
+    g01 = ("gpow", v0, v1)
+    out += [("mul", v2, g01), ("add", g01, ("gpow", v1, v0)), ("gpow", g01, half), ("div", one, ("gpow", v0, v2)),
+            ("gpow", v0, ("gpow", v1, half)), ("sub", ("gpow", v2, v2), ("mul", v0, v1)), ("pow", g01, 2),
+            ("gpow", ("add", v0, v1), ("mul", v2, v0))]
+    return out
+
+
+PGRID = [Fraction(x) for x in ("0.5", "1.5", "2", "2.5", "3")]
 
 
 GRID = [Fraction(x) for x in ("-2", "-1.5", "-1", "-0.5", "0.5", "1", "1.5", "2", "3")]
@@ -498,6 +580,30 @@ def run(tier, replay=None):
     prods = [("mul", ("v", 0), ("mul", ("v", 1), ("v", 2)))]
     raw.append({"kind": "prod", "exprs": prods, "n": 3})
 
+    # vector functions that only MOVE data (identity, reverse, take, drop, index lists, rotations built from slices): their
+    # result may share storage with the argument; the exact Jacobian is a selection matrix (oracle: the extracted model)
+    V = [("v", 0), ("v", 1), ("v", 2)]
+    for gtext, sel in (("{x}", [0, 1, 2]), ("{|x}", [2, 1, 0]), ("{2#x}", [0, 1]), ("{1_x}", [1, 2]), ("{x@[2 0 1]}", [2, 0, 1]),
+                       ("{x@[1 1]}", [1, 1]), ("{(1_x),1#x}", [1, 2, 0]), ("{||x}", [0, 1, 2]), ("{(-1)#x}", [2])):
+        raw.append({"kind": "jacsel", "exprs": [V[i] for i in sel], "n": 3, "g": gtext})
+    raw.append({"kind": "jacsel", "exprs": [("mul", V[0], ("v", i)) for i in range(3)], "n": 3, "g": "{(x@0)*x}"})
+    raw.append({"kind": "jacsel2", "exprs": [("mul", V[2], V[1]), ("mul", V[2], V[0])], "n": 3, "g": "{b*|w}"})
+
+    # general power with a variable-dependent exponent (python dual-number oracle, positive points)
+    gts = gpow_trees()
+    for t in gts:
+        raw.append({"kind": "vec3", "exprs": [t], "n": 3, "py": True})
+    for i in range(0, len(gts) - 1, 4):
+        raw.append({"kind": "jac", "exprs": [gts[i], gts[i + 1]], "n": 3, "py": True})
+    x0 = ("v", 0)
+    for t in (("gpow", x0, x0), ("gpow", x0, ("mul", x0, ("c", 1, 2))), ("gpow", ("add", x0, ("c", 1, 1)), x0), ("gpow", ("c", 2, 1), x0)):
+        raw.append({"kind": "scalar", "exprs": [t], "n": 1, "py": True})
+    raw.append({"kind": "jacsel", "exprs": [("gpow", V[i], V[0]) for i in range(3)], "n": 3, "g": "{x^(x@0)}", "py": True})
+    raw.append({"kind": "jacsel", "exprs": [("gpow", V[1], V[i]) for i in range(3)], "n": 3, "g": "{(x@1)^x}", "py": True})
+    raw.append({"kind": "jacsel", "exprs": [("gpow", V[i], V[2 - i]) for i in range(3)], "n": 3, "g": "{x^|x}", "py": True})
+    # a learnable exponent: loss = +/(w*X)^p over the constant X = [1 2 3], differentiated in [w p]
+    raw.append({"kind": "lexp", "exprs": [dsum([("gpow", ("mul", ("v", 0), ("c", k, 1)), ("v", 1)) for k in (1, 2, 3)])], "n": 2, "py": True})
+
     # ---- points: ask the model (defined, min |denominator| >= 1/4, magnitudes)
     pts_per = 2 if tier == "quick" else 3
     cand = []
@@ -506,31 +612,40 @@ def run(tier, replay=None):
             cand.append((ci, c["fixed_point"]))
             continue
         for _ in range(pts_per):
-            cand.append((ci, pick_point(rng, c["n"])))
+            cand.append((ci, [rng.choice(PGRID) for _ in range(c["n"])] if c.get("py") else pick_point(rng, c["n"])))
     reqs = []
     for ci, pt in cand:
+        if raw[ci].get("py"):
+            continue
         for e in raw[ci]["exprs"]:
             reqs.append(sx(["oracle", to_sx(e), [[p.numerator, p.denominator] for p in pt], raw[ci]["n"]]))
     outs = chk.run_model(reqs)
     cases = []
     oi = 0
+
+    def num(x):
+        return Fraction(x[0], x[1]) if isinstance(x, list) else x
     for ci, pt in cand:
         c = raw[ci]
-        ors = outs[oi:oi + len(c["exprs"])]
-        oi += len(c["exprs"])
+        if c.get("py"):
+            ors = [py_oracle(e, pt, c["n"]) for e in c["exprs"]]
+        else:
+            ors = outs[oi:oi + len(c["exprs"])]
+            oi += len(c["exprs"])
         good = True
         for o in ors:
             if o[0] != "ok":
                 raise RuntimeError("model oracle failed: %r" % (o,))
-            mind = None if o[2] == "none" else Fraction(o[2][0], o[2][1])
-            magf = Fraction(o[6][0], o[6][1])
-            if not o[1] or (mind is not None and mind < Fraction(1, 4)) or magf > 10 ** 6:
+            mind = None if o[2] == "none" else num(o[2])
+            if not o[1] or (mind is not None and mind < Fraction(1, 4)) or num(o[6]) > 10 ** 6:
                 good = False
-            if any(Fraction(m[0], m[1]) > 10 ** 7 for m in o[5]):
+            if any(num(m) > 10 ** 7 for m in o[5]):
                 good = False
         if not good:
             chk.count("points_outside_smooth_domain")
             continue
+        if c.get("py"):
+            chk.count("cases_with_python_dual_number_oracle")
         cases.append({"id": len(cases), "raw": ci, "point": pt, "oracle": ors})
 
     # ---- render for the implementation
@@ -582,6 +697,28 @@ def run(tier, replay=None):
             defs.append("gm::{(" + render(e1, vmulti) + "),(" + render(e2, vmulti) + ")}")
             evals.append({"label": "multi-jac", "expr": "[w b]∂gm",
                           "bitexact": {"mode": "vector", "nested": True, "params": [["w", pf[:2]], ["b", pf[2]]], "call": "gm()"}})
+        elif c["kind"] == "jacsel":
+            defs.append("p::" + vec_lit(pt))
+            defs.append("g::" + c["g"])
+            defs.append("w::" + vec_lit(pt))
+            defs.append("gw::" + c["g"].replace("x", "w"))
+            be = {"mode": "vector", "params": [["q", pf]], "call": "g(q)"}
+            evals.append({"label": "jac", "expr": "p∂g", "bitexact": be})
+            evals.append({"label": "jac", "expr": ".jacobian(g;p)", "bitexact": be})
+            evals.append({"label": "jac", "expr": vec_lit(pt) + "∂g", "bitexact": be})
+            evals.append({"label": "multi-jac", "layout": [3], "expr": "[w]∂gw",
+                          "bitexact": {"mode": "vector", "nested": True, "params": [["w", pf]], "call": "gw()"}})
+        elif c["kind"] == "jacsel2":
+            defs.append("w::" + vec_lit(pt[:2]))
+            defs.append("b::" + flit(pt[2]))
+            defs.append("gm::" + c["g"])
+            evals.append({"label": "multi-jac", "expr": "[w b]∂gm",
+                          "bitexact": {"mode": "vector", "nested": True, "params": [["w", pf[:2]], ["b", pf[2]]], "call": "gm()"}})
+        elif c["kind"] == "lexp":
+            defs += ["X::[1.0 2.0 3.0]", "w::" + flit(pt[0]), "p::" + flit(pt[1]), "loss::{+/(w*X@[0 1 2])^p}", "loss2::{+/(w*X)^p}"]
+            be = {"mode": "scalar", "nested": True, "params": [["w", pf[0]], ["p", pf[1]]]}
+            evals.append({"label": "multi:>", "layout": [1, 1], "expr": "loss:>[w p]", "bitexact": dict(be, call="loss()")})
+            evals.append({"label": "multi:>", "layout": [1, 1], "expr": "loss2:>[w p]", "bitexact": dict(be, call="loss2()")})
         impl_cases.append({"id": cs["id"], "defs": defs, "evals": evals})
         cs["defs"], cs["evals"] = defs, evals
 
@@ -590,26 +727,32 @@ def run(tier, replay=None):
     impl = {b: run_impl(b, impl_cases) for b in backends}
 
     # ---- compare
-    def expected(cs, label):
-        """exact values (Fractions), tolerances scales (mag of derivative, mag of f) per flattened component"""
+    def expected(cs, ev):
+        """per parameter: list of (exact value, magnitude of the derivative, magnitude of f) per flattened component"""
+        label = ev["label"]
         c = raw[cs["raw"]]
         ors = cs["oracle"]
+
         def q(x):
-            return Fraction(x[0], x[1])
+            return Fraction(x[0], x[1]) if isinstance(x, list) else x
+        n = c["n"]
         if label in (":>", "nabla", "each:>", "scalar:>", "scalar-nabla"):
-            o = ors[0]
-            return [[(q(g), q(m), q(o[6])) for g, m in zip(o[4], o[5])]]
-        if label == "multi:>":
-            o = ors[0]
-            comp = [(q(g), q(m), q(o[6])) for g, m in zip(o[4], o[5])]
-            return [comp[:2], comp[2:]]
-        if label == "jac":
-            return [[(q(g), q(m), q(o[6])) for o in ors for g, m in zip(o[4], o[5])]]
-        if label == "multi-jac":
-            wj = [(q(o[4][j]), q(o[5][j]), q(o[6])) for o in ors for j in (0, 1)]
-            bj = [(q(o[4][2]), q(o[5][2]), q(o[6])) for o in ors]
-            return [wj, bj]
-        raise KeyError(label)
+            sizes = [n]
+        elif label in ("multi:>", "multi-jac"):
+            sizes = ev.get("layout", [2, 1])
+        elif label == "jac":
+            sizes = [n]
+        else:
+            raise KeyError(label)
+        out, a = [], 0
+        for sz in sizes:
+            if label in ("jac", "multi-jac"):
+                out.append([(q(o[4][j]), q(o[5][j]), q(o[6])) for o in ors for j in range(a, a + sz)])
+            else:
+                o = ors[0]
+                out.append([(q(o[4][j]), q(o[5][j]), q(o[6])) for j in range(a, a + sz)])
+            a += sz
+        return out
 
     prop_fail, corr_fail = [], []
     seen = set()
@@ -624,7 +767,7 @@ def run(tier, replay=None):
                 label = ev["label"]
                 chk.count("evaluations")
                 chk.count("%s_%s" % (b, label))
-                key = (b, label, json.dumps(c["exprs"]))
+                key = (b, label, ev["expr"] if c["kind"] in ("jacsel", "jacsel2", "lexp") else "", json.dumps(c["exprs"]))
                 if key not in seen:
                     seen.add(key)
                     chk.count("distinct_nontrivial")
@@ -633,7 +776,7 @@ def run(tier, replay=None):
                 if "error" in item:
                     prop_fail.append((dict(rec, what="operator raised", error=item["error"]), "error"))
                     continue
-                exp = expected(cs, label)
+                exp = expected(cs, ev)
                 got = item["value"]
                 if len(exp) == 1 and (not got or not isinstance(got[0], list)):
                     got = [got]
